@@ -570,7 +570,7 @@ func longList(r *rand.Rand, lt seqType, want int) (reflect.Value, int) {
 	return v, n
 }
 
-var longListSizes = []int{8, 9, 12, 16, 17, 23, 31, 32, 33, 40, 64, 65, 100, 127, 128, 129, 200, 255, 256, 257, 300, 1000}
+var longListSizes = []int{8, 9, 12, 16, 17, 23, 31, 32, 33, 40, 64, 65, 100, 127, 128, 129, 200, 255, 256, 257, 300, 1000, 1023, 1024, 1025, 2047, 2048, 2049, 4096, 4097}
 
 func c04LongList(c *fw.Case) (o fw.Outcome) {
 	lts := listTypes()
